@@ -99,21 +99,50 @@ Theorem C26_tombstone_not_revivable : forall R C s x t0,
   step R C s (ORevive x) t0 = (s, if eff s t0 <? C then 4 else 1).
 Proof. exact revive_needs_recycled. Qed.
 
-(* ---- the membership stash: full statement, refutation, proved part *)
-(* FULL STATEMENT (what "returning with its direct memberships of groups that still exist" needs
-   from delete): in every state reachable from a fresh population, a committed delete stashes
-   EVERY live group that lists the recycled entry as a member (unless the group went with it). *)
-Definition C26_full_statement : Prop :=
-  forall R C s0 ops x t0, fresh s0 = true ->
-    snd (step R C (run R C s0 ops) (ODelete x) t0) = 0 ->
-    stash_completeb (ents (run R C s0 ops))
-                    (ents (fst (step R C (run R C s0 ops) (ODelete x) t0))) = true.
+(* ---- the membership stash *)
+(* FULL STATEMENT, proved for the tree after 76a0ae1 (what "returning with its direct memberships
+   of groups that still exist" needs from delete): in every state reachable from a fresh
+   population by ANY history, a committed delete stashes EVERY live group that lists the recycled
+   entry as a member (unless that group went to the recycle bin in the same delete).  Together
+   with C26_revive_restores (every stashed group gets the member back) and the invariant below
+   (a stashed group is dropped from the stash only when it is itself deleted) this is the
+   membership part of the property. *)
+Theorem C26_full_statement : forall R C s0 ops x t0,
+  fresh s0 = true ->
+  snd (step R C (run R C s0 ops) (ODelete x) t0) = 0 ->
+  stash_completeb (ents (run R C s0 ops))
+                  (ents (fst (step R C (run R C s0 ops) (ODelete x) t0))) = true.
+Proof. exact full_statement. Qed.
 
-(* REFUTED by the faithful model (and confirmed on the real server by the harness): person 0 in
-   group 1; delete group 1; revive group 1 (memberof does not recompute DirectMemberOf of the
-   members of a revived group); delete person 0 -> its stash is empty although group 1 is live
-   and lists it, so a later revive of person 0 does not put it back into group 1. *)
-Theorem C26_refuted : ~ C26_full_statement.
+(* The invariant behind it, over arbitrary op lists: ids stay unique and the stored
+   DirectMemberOf of every live entry names every live group that lists it. *)
+Theorem C26_dmo_complete_invariant : forall R C ops s,
+  NoDup (map eid (ents s)) /\ dmo_consb (ents s) = true ->
+  NoDup (map eid (ents (run R C s ops))) /\ dmo_consb (ents (run R C s ops)) = true.
+Proof.
+  intros R C ops s [H1 H2].
+  destruct (sinv_run R C ops s (conj H1 (proj1 (dmo_consb_dcons _) H2))) as [H3 H4].
+  split; [exact H3 | apply dmo_consb_dcons; exact H4].
+Qed.
+
+(* One step, any state: a complete stored DirectMemberOf gives a complete stash. *)
+Theorem C26_stash_complete : forall R C s x t0,
+  NoDup (map eid (ents s)) -> dmo_consb (ents s) = true ->
+  snd (step R C s (ODelete x) t0) = 0 ->
+  stash_completeb (ents s) (ents (fst (step R C s (ODelete x) t0))) = true.
+Proof. exact stash_complete_delete. Qed.
+
+(* THE DEFECT THIS CHECK FOUND (tree before 76a0ae1, model step_prefix / run_prefix): the same
+   statement is false.  Witness, confirmed on the real server (harness --probe; QueryServer::verify
+   reported MemberOfInvalid): person 0 in group 1; delete group 1; revive group 1 (memberof did
+   not recompute DirectMemberOf of the members of a revived group); delete person 0 -> its stash
+   is empty although group 1 is live and lists it, so reviving person 0 did not return it to
+   group 1. *)
+Theorem C26_prefix_refuted :
+  ~ (forall R C s0 ops x t0, fresh s0 = true ->
+       snd (step_prefix R C (run_prefix R C s0 ops) (ODelete x) t0) = 0 ->
+       stash_completeb (ents (run_prefix R C s0 ops))
+                       (ents (fst (step_prefix R C (run_prefix R C s0 ops) (ODelete x) t0))) = true).
 Proof.
   intros H.
   specialize (H 10 10
@@ -122,21 +151,10 @@ Proof.
   vm_compute in H. discriminate.
 Qed.
 
-(* PROVED PART: whenever the stored DirectMemberOf is complete at the time of the delete
-   (dmo_consb: it names every live group listing the entry), the stash is complete.  Missing for
-   the full statement: dmo_consb is preserved by every step EXCEPT a revive of a group that has
-   members (the KnownClass recognised by Model.known); that preservation is observed on every
-   run (the harness reads DirectMemberOf back after every transaction) but not proved here. *)
-Theorem C26_stash_complete_partial : forall R C s x t0,
-  NoDup (map eid (ents s)) -> dmo_consb (ents s) = true ->
-  snd (step R C s (ODelete x) t0) = 0 ->
-  stash_completeb (ents s) (ents (fst (step R C s (ODelete x) t0))) = true.
-Proof. exact stash_complete_delete. Qed.
-
 (* Soundness of the run-time tie: whenever the implementation's read-backs agree with the model,
-   the property's executable predicate pcore (search visibility = life-cycle state; only the
-   allowed transitions, at the allowed times, with the allowed causes; cascade and stash effects
-   of delete; restoration effects of revive) holds on those read-backs.  (pcheck = pcore plus the
-   refuted stash-completeness clause.) *)
-Theorem C26_agree_implies_core : forall c : case, agree c = true -> pcore c = true.
-Proof. exact agree_pcore. Qed.
+   the property's executable predicate pcheck holds on those read-backs: search visibility =
+   life-cycle state; only the allowed transitions, at the allowed times, with the allowed causes;
+   cascade and stash effects of delete incl. completeness of the stash judged on the groups' own
+   Member lists; restoration effects of revive. *)
+Theorem C26_agree_implies_property : forall c : case, agree c = true -> pcheck c = true.
+Proof. exact agree_pcheck. Qed.
